@@ -34,7 +34,8 @@ ASSUMPTIONS = [
 
 AMOUNTS = ["0", "1", "-1", "2.5", "1e3", "1e-3", ".5", "+3", "7e-1", "12", "16", "25.4", "72", "96"]
 PAIR_AMTS = ["0", "1", "-2.5", "3", "12", "25.4"]
-RELS = [None, ("num", 200), ("numstr", "200"), ("str", "50mm"), ("len", "3in"), ("len", "40")]
+RELS = [None, ("num", 200), ("numstr", "200"), ("str", "50mm"), ("len", "3in"), ("len", "40"), ("num", 0), ("num", -80),
+        ("numstr", "0")]
 FULL = dict(ppi=96, rel=F(200), font_size=16, font_height=8, viewbox=(F(0), F(0), F(200), F(100)))
 FULL_KW = dict(ppi=96, relative_length=200, font_size=16, font_height=8, viewbox="0 0 200 100")
 
@@ -119,7 +120,9 @@ class Value(SubCheck):
                          got, **tags)
         else:
             out.nontrivial.append((case["unit"], case["amount"], case["ppi"], str(case["rel"]), case["font"], case["viewbox"]))
-            if isinstance(got, svg.Length):
+            if isinstance(got, svg.Length) and exp == 0 and got.amount == 0:
+                pass        # a symbolic zero is as right as the number 0
+            elif isinstance(got, svg.Length):
                 out.fail("Length(%r).value(%r) stayed symbolic although resolvable" % (str(L), kw), float(exp), str(got),
                          **tags)
             elif not close(got, exp):
@@ -236,7 +239,13 @@ class Binary(SubCheck):
         if op in ("==", "!="):
             out.outcome = r
             if not defined:
-                return out      # cross-family equality is not pinned by the statement
+                # cross-family equality cannot be decided without a context: declining (== False, != True) is accepted,
+                # but *claiming* equality is only right if the two really are equal in the default context
+                claims_equal = (r is True) if op == "==" else (r is False)
+                if claims_equal and exp is not (op == "=="):
+                    out.fail("(%s%s %s %s%s) claims the operands equal; they are not (and it cannot know)" % (a, ua, op, b, ub),
+                             exp, r, **tags)
+                return out
             if r is not exp:
                 out.fail("(%s%s %s %s%s)" % (a, ua, op, b, ub), exp, r, **tags)
             return out
